@@ -24,7 +24,8 @@ LEVEL = 'proof'
 DRIVER = 'drv_c14'
 HARNESS = 'c14.cpp'
 SOURCES = ['src/containers/grid/RayTracing.cpp', 'src/containers/grid/GridIndexMapping.cpp']
-PROOF_MODULES = ['RomeaProofs.Properties.C14', 'RomeaProofs.Bridge.C14', 'RomeaProofs.Bridge.C14Cor']
+PROOF_MODULES = ['RomeaProofs.Properties.C14', 'RomeaProofs.Bridge.C14', 'RomeaProofs.Bridge.C14Cor',
+                 'RomeaProofs.Bridge.C14Cast', 'RomeaProofs.Bridge.C14CastCor']
 TRUSTED = ['harness/c14.cpp refuses (bad-op) what is undefined behaviour in the library: points outside the extent, '
            'setEndPoint with an origin cell outside the centre table; the model driver applies the same tests',
            'the order in which Eigen adds the squares in Vector3f/Vector3d::norm() (model: Spec.sqNorm) is compiler/Eigen '
@@ -896,6 +897,10 @@ def _bridge_fns(T, D, suf):
         {'cxx': 'RayCasting::setOriginPoint', 'record': rec, 'suffix': suf},
         {'cxx': 'RayCasting::setEndPoint', 'record': rec, 'suffix': suf},
         {'cxx': 'RayCasting::computeRayNumberOfCells', 'record': rec, 'suffix': suf},
+        # phase 3: the three `cast` overloads (the `while (++n != N)` loop filling the std::vector of index vectors runs on fuel)
+        {'cxx': 'RayCasting::cast', 'record': rec, 'sig': '()', 'suffix': suf},
+        {'cxx': 'RayCasting::cast', 'record': rec, 'sig': '(const romea::core::RayCasting<%s, %d>::PointType &)' % (T, D), 'suffix': '_to' + suf},
+        {'cxx': 'RayCasting::cast', 'record': rec, 'sig': 'PointType &, const', 'suffix': '_oe' + suf},
     ]
 
 
